@@ -14,6 +14,7 @@ Print Assumptions C19_string_total.
    any bytes - also when decoding fails part-way. *)
 Theorem C19_inv_zero : Inv zero_pkt /\ forall k, Inv (ctor k).
 Proof. split; [exact Inv_zero|exact Inv_ctor]. Qed.
+Print Assumptions C19_inv_zero.
 
 Theorem C19_inv_step : forall c p, applicable KConnect c = true -> Inv p -> Inv (step c p).
 Proof. exact Inv_step. Qed.
